@@ -1137,7 +1137,11 @@ def up_setup(ctx, prio, shapes=UP_SHAPES):
     defaults = None
     if prio == "new-defaults" and (shape != "flat1" or ctx.branch(ctx.fresh("defaults_given", "bool").t)):
         defaults = SymDict.fresh(ctx, "defaults")  # arbitrary (possibly empty) mapping; None is only forked for the one-item shape
-    return NS(old_handle=old, param_values=dict(old=old), new=ItemsMap(items), priority=prio, defaults=defaults, case=f"{prio}:{shape}", shape=shape)
+    e = fresh_str(ctx, "e") if prio == "new-defaults" else None
+    if e is not None and defaults is not None:
+        ctx.assume(z3.Implies(present(defaults.tree(), e), M.NE(defaults.tree())))  # a dict holding a key is non-empty
+    return NS(old_handle=old, param_values=dict(old=old), new=ItemsMap(items), priority=prio, defaults=defaults, case=f"{prio}:{shape}", shape=shape,
+              default_spelling=e)
 
 
 def up_requires(s):
@@ -1191,6 +1195,12 @@ def up_ensures(s):
     t, t2 = s.old.tree, s.old_handle.tree()
     out = [("returns-the-updated-dict", z3.BoolVal(s.result is s.old_handle))] + ([("first-item-starts-from-the-old-state", gs[0]["before"] == t)] if gs else [])
     out += update_rel(t, t2, s.new.items(), gs, s.priority, dtree(s.defaults))
+    if s.priority == "new-defaults" and s.shape == "flat1" and isinstance(s.defaults, SymDict):
+        # property level: the current default of the key may be stored under the other spelling (witness e from setup)
+        (k, v), e, c, dt = s.new.items()[0], s.default_spelling, gs[0]["c"], s.defaults.tree()
+        match = AND(present(dt, e), norm(e) == norm(k), same_entry(dt, e, t, c))
+        out += [("unchanged-default-is-replaced[default-stored-under-the-store's-spelling]", implies(AND(match, sterm(e) == sterm(c)), entry_is(t2, c, v)))]
+        # (the same clause for a default stored under the OTHER spelling is lemma `new-defaults-rule-identifies-spellings`)
     return [(f"[{s.case}{',defaults-given' if s.defaults is not None else ''}]{a}", b) for a, b in out]
 
 
@@ -1227,9 +1237,13 @@ def up_contract(prio, shapes=UP_SHAPES):
                     note=f"priority {prio!r}; `new` ranges over the shapes {', '.join(shapes)} with arbitrary key strings and values; `old`, `defaults` arbitrary")
 
 
-C_UPD_NEW = up_contract("new", UP_SHAPES + ("empty",))
-C_UPD_OLD = up_contract("old")
-C_UPD_ND = up_contract("new-defaults", ("flat1", "nested1", "opaque-section"))
+# the same function under several contract objects (priority x group of shapes) so that they are verified in parallel
+C_UPD_NEW = up_contract("new", ("flat1", "flat2", "opaque-section", "empty"))
+C_UPD_NEW2 = up_contract("new", ("nested1", "nested1+flat1", "nested2"))
+C_UPD_OLD = up_contract("old", ("flat1", "flat2", "opaque-section"))
+C_UPD_OLD2 = up_contract("old", ("nested1", "nested1+flat1", "nested2"))
+C_UPD_ND = up_contract("new-defaults", ("flat1", "opaque-section"))
+C_UPD_ND2 = up_contract("new-defaults", ("nested1",))
 
 
 # ---- merge
@@ -1318,7 +1332,7 @@ C_MERGE = Contract(f"{CFG}:merge", setup=unpruned(mg_setup), ensures=mg_ensures,
 # ---- update_defaults
 
 
-def ud_setup(ctx):
+def ud_setup(ctx, shapes=("flat1", "nested1", "device")):
     init_ctx(ctx)
     env = M.env_of(ctx)
     for f in M.istr_facts(env.cur):
@@ -1330,8 +1344,8 @@ def ud_setup(ctx):
             n = cand
             break
     defaults = [SymDict.fresh(ctx, f"defaults{i}") for i in range(n)]
-    shape = "device"
-    for cand in ("flat1", "nested1"):
+    shape = shapes[-1]
+    for cand in shapes[:-1]:
         if ctx.branch(ctx.fresh("shape_" + cand, "bool").t):
             shape = cand
             break
@@ -1393,12 +1407,17 @@ def ud_rejected(s):
     return ckv_rejected(NS(key="device", val=s.items[0][1], ctx=s.ctx, mode="apply"))
 
 
-C_UPDDEF = Contract(f"{CFG}:update_defaults", setup=unpruned(ud_setup), requires=ud_requires, ensures=ud_ensures, snapshot=ud_snapshot,
+def ud_contract(shapes):
+    return Contract(f"{CFG}:update_defaults", setup=unpruned(lambda ctx: ud_setup(ctx, shapes)), requires=ud_requires, ensures=ud_ensures, snapshot=ud_snapshot,
                     raises={Exception: ud_rejected},
                     on_raise=lambda s, E: [("rejected-device-default-leaves-store-and-defaults-stack-unchanged",
                                             AND(s.config.tree() == s.old.tree, s.config.root.writes == s.old.writes,
                                                 z3.BoolVal(len(s.defaults) == len(s.old.defaults) and all(a is b for a, b in zip(s.defaults, s.old.defaults)))))],
-                    note="new defaults: one scalar item, one section with one item, or {'device': request}; 0..2 earlier (opaque) defaults")
+                    note="new defaults: one scalar item, one section with one item, or {'device': request}; 0..2 earlier (opaque) defaults; shapes " + ",".join(shapes))
+
+
+C_UPDDEF = ud_contract(("flat1", "nested1"))
+C_UPDDEF2 = ud_contract(("device",))
 
 # ---- refresh
 
@@ -1445,7 +1464,7 @@ C_REFRESH = Contract(f"{CFG}:refresh", setup=unpruned(rf_setup), ensures=rf_ensu
                      note="0..3 opaque defaults; collect() is a parameter (empty, or an arbitrary user mapping); update is used through its contract")
 
 CONTRACTS = [C_CANON, C_ASSIGN, C_GET, C_VALIDATE, C_VALIDATE2, C_CHECK, C_CHECK2, C_INIT1, C_INIT2, C_INIT3, C_ENTER, C_SETDEV, C_GETDEV, C_DEVICE,
-             C_UPD_NEW, C_UPD_OLD, C_UPD_ND, C_MERGE, C_UPDDEF, C_REFRESH]
+             C_UPD_NEW, C_UPD_NEW2, C_UPD_OLD, C_UPD_OLD2, C_UPD_ND, C_UPD_ND2, C_MERGE, C_UPDDEF, C_UPDDEF2, C_REFRESH]
 
 
 
@@ -1453,8 +1472,704 @@ CONTRACTS = [C_CANON, C_ASSIGN, C_GET, C_VALIDATE, C_VALIDATE2, C_CHECK, C_CHECK
 
 
 
-LEMMAS = []
-BOUNDED = []
-TRUSTED = []
-ASSUMPTIONS = []
-EXPLANATION = ""
+
+# ================================================================================================
+# property-level lemmas (from the contract statements alone)
+# ================================================================================================
+
+
+def _facts(*terms):
+    out = []
+    for t in terms:
+        out += string_facts(t)
+    return out
+
+
+def entries_equal(ta, a, tb, b):
+    a, b = sterm(a), sterm(b)
+    return z3.And(KF(ta)[a] == KF(tb)[b], LF(ta)[a] == LF(tb)[b], CF(ta)[a] == CF(tb)[b])
+
+
+def lemma_one_level_lww(ctx):
+    """One level of the store, from canonical_name's and _assign's contracts: with the representation invariant
+    Inv(t) = 'at most one stored spelling per normalised name, every stored key uses one spelling', assigning through key k
+    (one spelling) is an update of the abstract last-writer-wins map  A(norm) = entry stored under the spelling of norm:
+    Inv is preserved, a later lookup through ANY single-spelling key of the same normalised name finds the value, and lookups of
+    every other name see the old entry."""
+    t, t2 = z3.Const("t", TREE), z3.Const("t2", TREE)
+    S_ = lambda n: z3.String(n)
+    k, c, e0, e1, e2, q, cq, cq2 = map(S_, ("k", "c", "e0", "e1", "e2", "q", "cq", "cq2"))
+    a, b = z3.String("a!q"), z3.String("b!q")
+    v = z3.Int("v")
+
+    names = (k, c, e0, e1, e2, q, cq, cq2)
+
+    def inv(tt):
+        # Inv(tt) instantiated at the named strings (ground instances of the two universally quantified clauses)
+        return [implies(AND(present(tt, x), present(tt, y), norm(x) == norm(y)), x == y) for x in names for y in names if x is not y] + \
+               [implies(present(tt, x), pure(x)) for x in names]
+
+    def cn_inst(cc, kk, tt):
+        # canonical_name's post with its quantified clause instantiated at the named strings
+        return cn_post(cc, kk, tt, quantified=False) + [implies(AND(present(tt, x), norm(x) == norm(kk), pure(x), pure(kk)), present(tt, cc)) for x in names]
+
+    cn_post_ = cn_inst
+    base = _facts(*names) + inv(t) + cn_inst(c, k, t) + [pure(k)]
+    assign = [others_unchanged(t, t2, [c]), KF(t2)[c] == LEAF, LF(t2)[c] == v]   # _assign, level of the last path component
+    return [
+        ("canonical-name-is-THE-stored-spelling", base + [present(t, e0), norm(e0) == norm(k)], c == e0),
+        ("new-spelling-only-when-no-spelling-is-stored", base + [z3.Not(present(t, c)), present(t, e0)], norm(e0) != norm(k)),
+        ("Inv-preserved:one-spelling-per-name", base + assign + [present(t2, e1), present(t2, e2), norm(e1) == norm(e2)], e1 == e2),
+        ("Inv-preserved:stored-keys-use-one-spelling", base + assign + [present(t2, e1)], pure(e1)),
+        ("read-your-write-through-any-spelling", base + assign + [pure(q), norm(q) == norm(k)] + cn_inst(cq2, q, t2), AND(cq2 == c, KF(t2)[cq2] == LEAF, LF(t2)[cq2] == v)),
+        ("other-names-unaffected", base + assign + [pure(q), norm(q) != norm(k)] + cn_inst(cq, q, t) + cn_inst(cq2, q, t2), AND(cq2 == cq, entries_equal(t, cq, t2, cq2))),
+    ]
+
+
+def lemma_nested_lww(ctx):
+    """Two levels, from _assign's contract (assign_rel) and get's chain: after assigning v at the path (k0, k1), reading the
+    path through the canonical keys returns v, and the sibling entries of both levels are untouched (no sibling key dropped)."""
+    t, t2 = z3.Const("t", TREE), z3.Const("t2", TREE)
+    k0, k1, c0, c1, sib0, sib1 = map(z3.String, ("k0", "k1", "c0", "c1", "sib0", "sib1"))
+    v = Leaf(z3.Int("v"))
+    rel = assign_rel(t, t2, [Sym(k0), Sym(k1)], [Sym(c0), Sym(c1)], v, None)
+    child_old = z3.If(present(t, c0), CF(t)[c0], EMPTY)
+    hyp = _facts(k0, k1, c0, c1) + list(rel) + list(M.EMPTY_FACTS) + [z3.Not(is_leaf(t, c0))]
+    return [
+        ("value-readable-at-the-canonical-path", hyp, entry_is_chain(t2, [c0, c1], v, None)),
+        ("top-level-siblings-kept", hyp + [sib0 != c0], entries_equal(t, sib0, t2, sib0)),
+        ("section-siblings-kept", hyp + [sib1 != c1], entries_equal(child_old, sib1, CF(t2)[c0], sib1)),
+        ("section-sibling-present-before=>present-after", hyp + [sib1 != c1, is_dict(t, c0), present(CF(t)[c0], sib1)], present(CF(t2)[c0], sib1)),
+    ]
+
+
+def lemma_refresh(ctx):
+    """refresh restores exactly the accumulated defaults: refresh's post and merge's post name the same state."""
+    d = [z3.Const(f"d{i}", TREE) for i in range(3)]
+    store, merged, store_ud, dnew = z3.Const("store", TREE), z3.Const("merged", TREE), z3.Const("store_ud", TREE), z3.Const("dnew", TREE)
+    out = []
+    for n in range(4):
+        ft = fold_defaults(d[:n])
+        out.append((f"refresh-without-user-config=merge(*defaults)[{n}-defaults]", [store == ft, merged == ft], store == merged))
+    # update_defaults appends; a following refresh folds the longer stack: merge(old..., new)
+    out.append(("refresh-after-update_defaults-includes-the-new-defaults", [store == fold_defaults(d[:2] + [dnew])],
+                store == UPD(fold_defaults(d[:2]), dnew, z3.IntVal(PRIO["new"]), EMPTY)))
+    return out
+
+
+def lemma_new_defaults_spelling(ctx):
+    """Property level: update(priority='new-defaults') must replace a value that still equals its current default also when the
+    defaults store that key under the other spelling.  Hypotheses: the (proved) one-item statement of update."""
+    tb, ta, dt = z3.Const("old", TREE), z3.Const("new_state", TREE), z3.Const("defaults", TREE)
+    k, c, e = z3.String("k"), z3.String("c"), z3.String("e")
+    v = Leaf(z3.Int("v"))
+    g = dict(c=Sym(c), after=ta, sub=None)
+    hyp = _facts(k, c, e) + [f for _, f in step_rel(tb, ta, Sym(k), v, g, "new-defaults", dt)] + [z3.Implies(present(dt, e), M.NE(dt)), z3.Implies(present(dt, c), M.NE(dt))]
+    match = AND(present(dt, e), norm(e) == norm(k), same_entry(dt, e, tb, c))
+    return [("default-under-the-store's-spelling", hyp + [match, e == c], entry_is(ta, c, v)),
+            ("default-under-any-spelling", hyp + [match], entry_is(ta, c, v))]
+
+
+LEMMAS = [
+    Lemma("one-level-last-writer-wins", lemma_one_level_lww, uses=["canonical_name", "set._assign"]),
+    Lemma("nested-assignment-keeps-siblings", lemma_nested_lww, uses=["set._assign", "get"]),
+    Lemma("refresh-restores-accumulated-defaults", lemma_refresh, uses=["refresh", "merge", "update_defaults"]),
+    Lemma("new-defaults-rule-identifies-spellings", lemma_new_defaults_spelling, uses=["update"]),
+]
+
+TRUSTED = [
+    "dict model (pyvc/lib/c19_models.py): a nested dict is a tree state with per-key kind / scalar identity / nested state; d[k]=v is an array store; "
+    "handles read through the root (reference semantics for tree-shaped stores); a dict literal {} is the empty state; dict.clear / dict.get / `in` / truthiness",
+    "str model: ==, substring `in`, lower (idempotent, length preserving, fixes cpu/mps/gpu/cuda and their prefixes), split('.') (join(parts)==s, no '.' in parts, "
+    "<=3 components enumerated), single-character replace('_','-') / replace('-','_') as uninterpreted maps with the ground facts STRING_FACTS "
+    "(validated on every run against CPython on all strings of length <=5 over {a,-,_,.}), replace('__','.') uninterpreted",
+    "torch.device(str): valid strings are '<type>' or '<type>:<non-negative int>'; the only type whose valid string contains 'cuda'/'cpu' is 'cuda'/'cpu' "
+    "(validated on 42 strings against torch on every run); torch.cuda.is_available / torch.mps.is_available / current_device / set_device and "
+    "quantem.core.config.NUM_DEVICES form a symbolic environment fixed per path (current_device >= 0, NUM_DEVICES >= 0)",
+    "str(int) contains none of the letters c, g, m and no '.', ':', '_'; str(x) of any other object is an arbitrary string",
+    "update(old, <opaque mapping>, priority, defaults) is a function of the states of its arguments (uninterpreted UPD): used only where `new` is not enumerated "
+    "(refresh / merge / update_defaults over the accumulated defaults)",
+    "collect() (yaml files on disk) is a parameter of refresh: either empty or an arbitrary mapping",
+    "pyvc engine (AST interpreter, call-by-contract, path exploration), z3, cvc5",
+]
+ASSUMPTIONS = [
+    "BOUND path/key shape: dotted keys have <=3 components (set._assign: path length 1..3, each step proved through the contract of the shorter path); "
+    "set(): mapping form with 1 or 2 items (2 items: <=2 components, scalar values), keyword form with three representative names",
+    "BOUND `new` of update(): shapes flat1, flat2, nested1, nested1+flat1, nested2, opaque-section, empty ('new-defaults': flat1, nested1, opaque-section) - "
+    "key strings, values, the old dict and the defaults are arbitrary; update_defaults: one scalar item / one section with one item / {'device': request}; 0..2 earlier defaults; refresh: 0..3 defaults",
+    "configuration values are opaque scalars (identity only) or nested mappings; scalar values are not containers (a str value behaves the same for get, shown by the bounded replay)",
+    "keys other than 'device' inside update()/update_defaults() shapes (the 'device' key has its own shapes); device requests: str, int, None, torch.device, and 'any other object'",
+    "PRECONDITION of update (priority 'new-defaults'): the defaults hold no scalar where `new` holds a section (otherwise the real code raises TypeError at `k in defaults`; "
+    "reachable by set({'s': {'k': 1}}) on a store whose default for 's' is a truthy scalar followed by update_defaults({'s': {'k': 2}}))",
+    "set() with a mapping VALUE replaces the whole section (last writer wins for that key); this is taken to satisfy the statement - "
+    "'nested updates merge' is read as a claim about update / update_defaults / dotted-path set, which are proved not to drop siblings",
+    "module-level state (`config`, `defaults`, NUM_DEVICES, cp) is modelled as explicit symbolic state; check_key_val reads config['has_cupy'] (required to be a stored scalar)",
+    "no concurrency (config_lock is unused by the code)",
+]
+EXPLANATION = ("VCs generated from the real source of quantem/core/config.py (canonical_name, set.__init__/_assign/__enter__, get, update, merge, update_defaults, refresh, "
+               "check_key_val, validate_device, set_device, get_device, device) over symbolic strings and symbolic nested dict states, discharged by z3/cvc5; "
+               "property lemmas (one-level last-writer-wins with spelling-normalised keys, sibling preservation, refresh = merge(defaults)) from the contracts alone")
+
+
+# ================================================================================================
+# run-time oracles: the same statements evaluated on the REAL functions (replay of counter-models, bounded stand-ins)
+# ================================================================================================
+
+
+def _cfgmod():
+    import quantem.core.config as cfg
+    return cfg
+
+
+def nrm(k):
+    return k.replace("-", "_")
+
+
+class simulated_env:
+    """Monkey-patch the hardware queries used by validate_device / check_key_val (inside the checker process only)."""
+
+    def __init__(self, cuda=False, mps=False, num=0, cur=0):
+        self.v = dict(cuda=bool(cuda), mps=bool(mps), num=int(num), cur=int(cur))
+        self.selected = []
+
+    def __enter__(self):
+        import torch
+        cfg = _cfgmod()
+        self.saved = (torch.cuda.is_available, torch.mps.is_available, torch.cuda.current_device, torch.cuda.set_device, cfg.NUM_DEVICES)
+        torch.cuda.is_available = lambda: self.v["cuda"]
+        torch.mps.is_available = lambda: self.v["mps"]
+        torch.cuda.current_device = lambda: self.v["cur"]
+        torch.cuda.set_device = lambda i: self.selected.append(i)
+        cfg.NUM_DEVICES = self.v["num"]
+        return self
+
+    def __exit__(self, *a):
+        import torch
+        cfg = _cfgmod()
+        torch.cuda.is_available, torch.mps.is_available, torch.cuda.current_device, torch.cuda.set_device, cfg.NUM_DEVICES = self.saved
+
+
+def device_expectation(dev, env):
+    """Property-level expectation for a device request: None = must be rejected, otherwise the stored canonical name."""
+    import torch
+    cuda, mps, num, cur = env["cuda"], env["mps"], env["num"], env["cur"]
+    want = None  # ('cuda', idx) | ('mps',) | ('cpu',)
+    if dev is None:
+        want = ("cuda", cur) if cuda else ("mps",) if mps else ("cpu",)
+    elif isinstance(dev, bool):
+        want = None
+    elif isinstance(dev, str):
+        lo = dev.lower()
+        if lo == "cpu":
+            want = ("cpu",)
+        elif lo == "mps":
+            want = ("mps",)
+        elif lo == "gpu":
+            want = ("cuda", cur) if cuda else ("mps",) if mps else ("unavailable",)
+        else:
+            try:
+                d = torch.device(dev)
+            except Exception:
+                d = None
+            if d is not None and d.type == "cuda":
+                want = ("cuda", d.index if d.index is not None else cur)
+    elif isinstance(dev, int):
+        want = ("cuda", dev) if dev >= 0 else None
+    elif isinstance(dev, torch.device):
+        want = ("cuda", dev.index if dev.index is not None else cur) if dev.type == "cuda" else (dev.type,) if dev.type in ("mps", "cpu") else None
+    if want is None or want[0] == "unavailable":
+        return None
+    if want[0] == "cuda":
+        return f"cuda:{want[1]}" if cuda and 0 <= want[1] < num else None
+    if want[0] == "mps":
+        return "mps" if mps else None
+    return "cpu"
+
+
+def _dev_from_json(d):
+    import torch
+    if isinstance(d, dict) and "torch.device" in d:
+        return torch.device(d["torch.device"])
+    if isinstance(d, dict) and "list" in d:
+        return list(d["list"])
+    if isinstance(d, dict) and "float" in d:
+        return float(d["float"])
+    return d
+
+
+def rt_device(inp):
+    """set({'device': dev}) on a private store: accepted iff well formed and available; a rejected request leaves the store unchanged."""
+    cfg = _cfgmod()
+    dev = _dev_from_json(inp["dev"])
+    env = dict(cuda=inp.get("cuda", False), mps=inp.get("mps", False), num=inp.get("num", 0), cur=inp.get("cur", 0))
+    store = {"device": "cpu", "other": 1}
+    before = dict(store)
+    exp = device_expectation(dev, env)
+    how = inp.get("via", "set")
+    with simulated_env(**env):
+        try:
+            if how == "check_key_val":
+                _, val = cfg.check_key_val("device", dev)
+                store["device"] = val
+            elif how == "validate_device":
+                val, _ = cfg.validate_device(dev)
+                store["device"] = val
+            elif how == "update_defaults":
+                cfg.update_defaults({"device": dev}, config=store, defaults=[{"device": "cpu", "other": 1}])
+            else:
+                cfg.set({"device": dev}, config=store)
+            raised = None
+        except Exception as e:
+            raised = e
+    if raised is not None:
+        ok = exp is None and store == before
+        return dict(violated=not ok, observed=f"raised {type(raised).__name__}; store {'unchanged' if store == before else 'CHANGED to ' + repr(store)}",
+                    expected="rejected, store unchanged" if exp is None else f"accepted as {exp!r}")
+    got = store.get("device")
+    ok = exp is not None and got == exp and store.get("other") == 1
+    return dict(violated=not ok, observed=f"accepted, stored device {got!r}", expected="rejected (malformed or unavailable), store unchanged" if exp is None else f"stored device {exp!r}")
+
+
+def klass_device(inp, res):
+    d = inp["dev"]
+    if isinstance(d, str):
+        lo = d.lower()
+        if "cpu" in d and lo != "cpu":
+            return "string-containing-cpu-accepted-as-cpu"
+        if "gpu" in lo and lo != "gpu" and "cuda" not in lo:
+            return "string-containing-gpu-accepted-as-gpu"
+    if isinstance(d, dict) and "cpu" in str(_dev_from_json(d)) and "torch.device" not in d:
+        return "non-string-whose-text-contains-cpu-accepted-as-cpu"
+    return "any"
+
+
+DEVICE_STRINGS = ["cpu", "CPU", "Cpu", "mps", "MPS", "gpu", "GPU", "cuda", "cuda:0", "cuda:1", "cuda:2", "cuda:7", "CUDA", "cuda:-1", "cuda:x", "cuda0",
+                  "xcpux", "cpu:0", "mycpu", "xgpux", "gpu0", "egpu", "", "tpu", "xla", "meta", "cud", " cpu"]
+
+
+def fam_device(tier="quick", seed=0):
+    envs = [dict(cuda=False, mps=False, num=0, cur=0), dict(cuda=True, mps=False, num=2, cur=1), dict(cuda=False, mps=True, num=0, cur=0),
+            dict(cuda=True, mps=True, num=1, cur=0)]
+    vias = ("set", "check_key_val", "update_defaults") if tier == "quick" else ("set", "check_key_val", "update_defaults", "validate_device")
+    reqs = list(DEVICE_STRINGS) + [0, 1, 2, -1, None, {"float": 1.5}, {"list": ["cpu"]}, {"list": ["gpu"]}, {"torch.device": "cpu"}, {"torch.device": "cuda:1"},
+                                   {"torch.device": "cuda"}, {"torch.device": "mps"}, {"torch.device": "meta"}]
+    for env in envs:
+        for via in vias:
+            for d in reqs:
+                if via == "validate_device" and isinstance(d, str) and "cpu" in d:
+                    continue  # the 'cpu' shortcut lives in check_key_val
+                yield dict(dev=d, via=via, **env)
+
+
+def conc_device(prefix, via):
+    def conc(ev):
+        env = dict(cuda=bool(ev("cuda_available", False)), mps=bool(ev("mps_available", False)), num=ev("NUM_DEVICES", 0), cur=ev("cuda_current_device", 0))
+        if ev(prefix + "_is_none", False):
+            dev = None
+        elif ev(prefix + "_is_str", None) or ev(prefix + "_str") is not None and not ev(prefix + "_is_int", False):
+            dev = ev(prefix + "_str", "")
+        elif ev(prefix + "_int") is not None:
+            dev = ev(prefix + "_int")
+        elif ev(prefix + "_type") is not None:
+            ix = None if ev(prefix + "_index_is_none", True) else ev(prefix + "_index", 0)
+            dev = {"torch.device": ev(prefix + "_type") + ("" if ix is None else f":{ix}")}
+        elif ev("str_of_val") is not None:
+            return None
+        else:
+            return None
+        if isinstance(dev, str):
+            # the model interprets `lower` freely: if it disagrees with CPython on this string, replay the model's lower-case form
+            # instead (every fact the code tests - substring / equality of the lower-cased text - is then realised)
+            m = getattr(ev, "model", None)
+            try:
+                if m is not None:
+                    lo = m.eval(M.LOWER(z3.String(prefix + "_str!0")), model_completion=True)
+                    if z3.is_string_value(lo) and lo.as_string() != dev.lower() and "cpu" not in dev:
+                        dev = lo.as_string()
+            except Exception:
+                pass
+            if any(ord(ch) > 126 or ord(ch) < 32 for ch in dev):
+                return None
+        return dict(dev=dev, via=via, **env)
+    return conc
+
+
+def fam_device_via(via):
+    def fam():
+        for inp in fam_device("thorough"):
+            if inp["via"] == via:
+                yield inp
+    return fam
+
+
+# ---- canonical_name
+
+
+def rt_canon(inp):
+    cfg = _cfgmod()
+    k, stored = inp["k"], list(inp["stored"])
+    d = {e: i for i, e in enumerate(stored)}
+    r = cfg.canonical_name(k, d)
+    problems = []
+    if nrm(r) != nrm(k):
+        problems.append(f"result {r!r} is not a spelling of {k!r}")
+    if k in d and r != k:
+        problems.append("exact spelling present but not returned")
+    if r != k and r not in d:
+        problems.append("result is neither the given key nor an existing key")
+    other = [e for e in d if nrm(e) == nrm(k)]
+    if other and r not in d:
+        problems.append(f"{other[0]!r} is stored and is a '-'/'_' spelling of {k!r}, but canonical_name returned {r!r} which is not stored (a second entry would be created)")
+    return dict(violated=bool(problems), observed="; ".join(problems) or "ok", expected="an existing spelling of the key whenever one is stored")
+
+
+def small_keys():
+    import itertools
+    out = []
+    for n in (1, 2, 3):
+        for seps in itertools.product("-_", repeat=n - 1):
+            parts = ["a", "b", "c"][:n]
+            out.append("".join(p + (seps[i] if i < n - 1 else "") for i, p in enumerate(parts)))
+    return out  # a, a-b, a_b, a-b-c, a-b_c, a_b-c, a_b_c
+
+
+def fam_canon(tier="quick", seed=0):
+    ks = small_keys()
+    for k in ks:
+        yield dict(k=k, stored=[])
+        for e in ks:
+            yield dict(k=k, stored=[e])
+            yield dict(k=k, stored=[e, "zzz"])
+
+
+def conc_canon(ev):
+    k, e = ev("k"), ev("e")
+    if k is None or e is None:
+        return None
+    return dict(k=k, stored=[e])
+
+
+def klass_spelling(keys):
+    return "mixed-spelling-key" if any("-" in p and "_" in p for k in keys for p in str(k).split(".")) else "any"
+
+
+# ---- histories against a dictionary reference model with normalised keys
+
+MISSING = "<missing>"
+
+
+class RefStore:
+    """Reference: plain nested dicts with '-' -> '_' normalised keys; the documented priority rules of update / update_defaults."""
+
+    def __init__(self):
+        self.store, self.defaults = {}, []
+
+    @staticmethod
+    def normalise(m):
+        return {nrm(k): RefStore.normalise(v) if isinstance(v, dict) else v for k, v in m.items()}
+
+    @staticmethod
+    def merge_into(old, new, priority="new", defaults=None):
+        for k, v in new.items():
+            if isinstance(v, dict):
+                if not isinstance(old.get(k), dict):
+                    old[k] = {}
+                RefStore.merge_into(old[k], v, priority, defaults.get(k) if isinstance(defaults, dict) else None)
+            elif priority == "new" or k not in old or (priority == "new-defaults" and isinstance(defaults, dict) and k in defaults and defaults[k] == old[k]):
+                old[k] = v
+        return old
+
+    def merged_defaults(self):
+        r = {}
+        for d in self.defaults:
+            RefStore.merge_into(r, d)
+        return r
+
+    def set(self, path, value):
+        d = self.store
+        parts = [nrm(p) for p in path.split(".")]
+        for p in parts[:-1]:
+            if p not in d:
+                d[p] = {}
+            d = d[p]
+            if not isinstance(d, dict):
+                raise TypeError("scalar on the path")
+        d[parts[-1]] = RefStore.normalise(value) if isinstance(value, dict) else value
+
+    def update_defaults(self, new):
+        import copy
+        new = RefStore.normalise(new)
+        cur = self.merged_defaults()
+        self.defaults.append(copy.deepcopy(new))
+        RefStore.merge_into(self.store, copy.deepcopy(new), "new-defaults", cur)
+
+    def refresh(self):
+        self.store = self.merged_defaults()
+
+    def get(self, path):
+        d = self.store
+        for p in path.split("."):
+            if not isinstance(d, dict) or nrm(p) not in d:
+                return MISSING
+            d = d[nrm(p)]
+        return d
+
+
+def _normalised(v):
+    return RefStore.normalise(v) if isinstance(v, dict) else v
+
+
+PROBE_PATHS = ["a-b", "a_b", "c", "c.d-e", "c.d_e", "a-b.x", "m-n-o", "m_n-o", "m_n_o", "m-n_o"]
+
+
+def rt_history(inp):
+    """Run a history on the REAL functions with an explicit store (config=, defaults=) and compare every probe with the reference."""
+    import copy
+    cfg = _cfgmod()
+    store, defaults = {}, []
+    ref = RefStore()
+    problems = []
+    probe, step = None, -1
+    for step, op in enumerate(inp["ops"]):
+        kind = op[0]
+        exp_exc = real_exc = None
+        try:
+            if kind == "set":
+                ref.set(op[1], copy.deepcopy(op[2]))
+            elif kind == "setkw":
+                ref.set(op[1].replace("__", "."), copy.deepcopy(op[2]))
+            elif kind == "defaults":
+                ref.update_defaults(copy.deepcopy(op[1]))
+            elif kind == "refresh":
+                ref.refresh()
+        except TypeError as e:
+            exp_exc = e
+        try:
+            if kind == "set":
+                cfg.set({op[1]: copy.deepcopy(op[2])}, config=store)
+            elif kind == "setkw":
+                cfg.set(None, store, **{op[1]: copy.deepcopy(op[2])})
+            elif kind == "defaults":
+                cfg.update_defaults(copy.deepcopy(op[1]), config=store, defaults=defaults)
+            elif kind == "refresh":
+                cfg.refresh(config=store, defaults=defaults, path="/nonexistent/quantem-config")
+        except Exception as e:
+            real_exc = e
+        if (exp_exc is None) != (real_exc is None):
+            problems.append(f"step {step} {op}: real {'raised ' + type(real_exc).__name__ if real_exc else 'returned'}, reference {'raises' if exp_exc else 'returns'}")
+            break
+        if real_exc is not None:
+            break
+        for p in PROBE_PATHS:
+            got = cfg.get(p, default=MISSING, config=store)
+            want = ref.get(p)
+            if _normalised(got) != want:
+                problems.append(f"after step {step} {op}: get({p!r}) = {got!r}, reference (keys normalised) = {want!r}")
+                probe = p
+                break
+        if problems:
+            break
+    return dict(violated=bool(problems), observed="; ".join(problems) or "ok", probe=probe, steps_run=step + 1 if inp["ops"] else 0,
+                expected="get returns the most recently written value of the key with '-'/'_' spellings identified; refresh = accumulated defaults; siblings kept")
+
+
+def history_ops(mixed=True):
+    ops = [("set", "a-b", 1), ("set", "a_b", 2), ("set", "c.d-e", 3), ("set", "c.d_e", 4), ("set", "c", {"d-e": 5, "f": 6}), ("set", "a-b.x", 7),
+           ("setkw", "a_b", 8), ("setkw", "c__d_e", 9),
+           ("defaults", {"a_b": 10}), ("defaults", {"c": {"d-e": 11, "g": 12}}), ("defaults", {"a-b": 1}), ("defaults", {"a_b": 1}), ("refresh",)]
+    if mixed:
+        ops += [("set", "m-n-o", 20), ("set", "m_n-o", 21), ("set", "m_n_o", 22), ("defaults", {"m-n_o": 23})]
+    return ops
+
+
+def fam_history(tier="quick", seed=0):
+    import itertools
+    ops = history_ops()
+    depth = 3 if tier == "quick" else 4
+    for n in range(1, depth + 1):
+        for h in itertools.product(range(len(ops)), repeat=n):
+            yield dict(ops=[list(ops[i]) if not isinstance(ops[i], tuple) else list(ops[i]) for i in h])
+
+
+def _dict_keys(m):
+    out = []
+    for k, v in (m or {}).items():
+        out.append(k)
+        if isinstance(v, dict):
+            out += _dict_keys(v)
+    return out
+
+
+def other_spelling_in_defaults(store_keys, default_keys):
+    """Some default is stored under a different (single-spelling) spelling than the store uses for the same key."""
+    return any(nrm(a) == nrm(b) and a != b for a in store_keys for b in default_keys)
+
+
+def klass_history(inp, res):
+    keys, set_keys, def_keys = [], [], []
+    for op in inp["ops"][:res.get("steps_run") or None]:
+        if op[0] in ("set", "setkw"):
+            ks = [p for p in op[1].replace("__", ".").split(".")] + (_dict_keys(op[2]) if isinstance(op[2], dict) else [])
+            keys += ks
+            set_keys += ks
+        elif op[0] == "defaults":
+            keys += _dict_keys(op[1])
+            def_keys += _dict_keys(op[1])
+    if res.get("probe"):
+        keys.append(res["probe"])
+    k = klass_spelling(keys)
+    if k == "any" and other_spelling_in_defaults(set_keys + def_keys, def_keys):
+        return "new-defaults:default-stored-under-another-spelling"
+    return k
+
+
+def fam_history_small():
+    """Small family used as fallback search when a store obligation fails (no mixed spellings: those are a known class)."""
+    import itertools
+    ops = history_ops(mixed=False)
+    for n in (1, 2):
+        for h in itertools.product(range(len(ops)), repeat=n):
+            yield dict(ops=[list(ops[i]) for i in h])
+
+
+# ---- update / merge on small inputs (sibling preservation, priority rules) against the reference merge
+
+
+def rt_update(inp):
+    import copy
+    cfg = _cfgmod()
+    old, new, prio, dfl = copy.deepcopy(inp["old"]), copy.deepcopy(inp["new"]), inp.get("priority", "new"), copy.deepcopy(inp.get("defaults"))
+    want = RefStore.merge_into(RefStore.normalise(old), RefStore.normalise(new), prio, RefStore.normalise(dfl) if dfl is not None else None)
+    try:
+        got = cfg.update(old, new, priority=prio, defaults=dfl)
+    except Exception as e:
+        return dict(violated=True, observed=f"raised {type(e).__name__}: {e}", expected=f"{want!r}")
+    problems = []
+    if got is not old:
+        problems.append("does not return the updated dict")
+    if RefStore.normalise(got) != want:
+        problems.append(f"result {got!r} differs from the reference merge {want!r} (keys normalised)")
+    if len(RefStore.normalise(got)) != len(got):
+        problems.append(f"result holds two spellings of one key: {sorted(got)}")
+    return dict(violated=bool(problems), observed="; ".join(problems) or "ok", expected="recursive merge by priority, no sibling dropped, one entry per key")
+
+
+def fam_update(tier="quick", seed=0):
+    olds = [{}, {"a-b": 1}, {"a_b": 1, "c": {"d-e": 2, "f": 3}}, {"c": 5}, {"c": {"d_e": 2}}, {"c": None}]
+    news = [{}, {"a_b": 9}, {"a-b": 9, "z": 8}, {"c": {"d_e": 7}}, {"c": {"g": 6}, "a-b": 4}, {"c": {"d-e": 7, "h": {"i": 1}}}, {"c": 4}]
+    dfls = [None, {}, {"a-b": 1}, {"a_b": 1, "c": {"d-e": 2}}, {"c": {"d_e": 2, "f": 3}}]
+    for o in olds:
+        for n in news:
+            for prio in ("new", "old"):
+                yield dict(old=o, new=n, priority=prio, defaults=None)
+            for d in dfls:
+                yield dict(old=o, new=n, priority="new-defaults", defaults=d)
+
+
+def klass_update(inp, res):
+    k = klass_spelling(_dict_keys(inp["old"]) + _dict_keys(inp["new"]) + _dict_keys(inp.get("defaults")))
+    if k == "any" and inp.get("priority") == "new-defaults" and other_spelling_in_defaults(_dict_keys(inp["old"]) + _dict_keys(inp["new"]), _dict_keys(inp.get("defaults"))):
+        return "new-defaults:default-stored-under-another-spelling"
+    return k
+
+
+# ---- context manager
+
+
+def rt_with(inp):
+    import copy
+    cfg = _cfgmod()
+    store = copy.deepcopy(inp["store"])
+    before = copy.deepcopy(store)
+    try:
+        with cfg.set(copy.deepcopy(inp["arg"]), config=store) as c:
+            inside = copy.deepcopy(store)
+            same = c is store
+    except Exception as e:
+        return dict(violated=True, observed=f"`with set(...)` raised {type(e).__name__}: {e}", expected="values applied inside the block and restored on exit")
+    ref = RefStore()
+    ref.store = RefStore.normalise(before)
+    for k, v in inp["arg"].items():
+        ref.set(k, copy.deepcopy(v))
+    problems = []
+    if not same:
+        problems.append("__enter__ does not return the store")
+    if RefStore.normalise(inside) != ref.store:
+        problems.append(f"inside the block the store is {inside!r}")
+    if store != before:
+        problems.append(f"after the block the store is {store!r}, before it was {before!r}")
+    return dict(violated=bool(problems), observed="; ".join(problems) or "ok", expected="values applied inside the block and previous values restored on exit")
+
+
+def fam_with(tier="quick", seed=0):
+    for store in ({}, {"a-b": 1}, {"a_b": 1, "c": {"d": 2, "e": 3}}):
+        for arg in ({"a-b": 5}, {"c.d": 6}, {"new": 1}, {"c": {"d": 9}}, {"a_b": 5, "c.z": 1}):
+            yield dict(store=store, arg=arg)
+
+
+def rt_string_facts(inp):
+    n, bad = M.validate_string_facts(inp["max_len"], inp["alphabet"])
+    return dict(violated=bool(bad), observed=f"{n} strings checked; counterexamples {bad[:3]}", expected="STRING_FACTS / split facts hold for CPython str")
+
+
+def rt_torch_device_facts(inp):
+    """The trusted facts about torch.device(str) used by the model, on concrete strings."""
+    import torch
+    s = inp["s"]
+    try:
+        d = torch.device(s)
+    except Exception:
+        d = None
+    problems = []
+    if d is not None:
+        if d.index is None and s != d.type:
+            problems.append("valid string without index is not the type name")
+        if d.index is not None and (s != f"{d.type}:{d.index}" or d.index < 0):
+            problems.append("valid string with index is not '<type>:<non-negative int>'")
+        if "cuda" in s.lower() and d.type != "cuda":
+            problems.append("valid string containing 'cuda' is not of type cuda")
+        if ("cpu" in d.type and d.type != "cpu") or ("cuda" in d.type and d.type != "cuda") or ":" in d.type:
+            problems.append("device type name contains cpu/cuda/':'")
+    if s in ("cuda", "cpu", "mps") and (d is None or d.type != s or d.index is not None):
+        problems.append("bare type name not accepted")
+    if s.lower() != s.lower().lower() or len(s.lower()) != len(s):
+        problems.append("lower not idempotent / length preserving")
+    return dict(violated=bool(problems), observed="; ".join(problems) or "ok", expected="device_facts / lower_facts hold")
+
+
+def fam_torch_device_facts(tier="quick", seed=0):
+    for s in DEVICE_STRINGS + ["cuda:01", "cuda:10", "cpu:1", "mps:0", "xpu", "xpu:1", "privateuseone", "hip", "CUDA:0", "cuda: 0", "cuda:0 ", "cuda::", ":0", "cuda:"]:
+        yield dict(s=s)
+
+
+for _c, _rt, _fam, _conc in (
+        (C_CANON, rt_canon, fam_canon, conc_canon),
+        (C_VALIDATE, rt_device, fam_device_via("validate_device"), conc_device("dev", "validate_device")),
+        (C_VALIDATE2, rt_device, fam_device_via("validate_device"), conc_device("dev", "validate_device")),
+        (C_CHECK, rt_device, fam_device_via("check_key_val"), conc_device("val", "check_key_val")),
+        (C_CHECK2, rt_device, fam_device_via("check_key_val"), conc_device("val", "check_key_val")),
+        (C_SETDEV, rt_device, fam_device_via("set"), conc_device("dev", "set")),
+        (C_INIT1, rt_history, fam_history_small, None), (C_INIT2, rt_history, fam_history_small, None), (C_INIT3, rt_history, fam_history_small, None),
+        (C_ASSIGN, rt_history, fam_history_small, None), (C_GET, rt_history, fam_history_small, None),
+        (C_GETDEV, rt_history, fam_history_small, None), (C_DEVICE, rt_history, fam_history_small, None),
+        (C_UPD_NEW, rt_update, fam_update, None), (C_UPD_OLD, rt_update, fam_update, None), (C_UPD_ND, rt_update, fam_update, None),
+        (C_UPD_NEW2, rt_update, fam_update, None), (C_UPD_OLD2, rt_update, fam_update, None), (C_UPD_ND2, rt_update, fam_update, None),
+        (C_UPDDEF2, rt_device, fam_device_via("update_defaults"), conc_device("dev", "update_defaults")),
+        (C_MERGE, rt_update, fam_update, None), (C_UPDDEF, rt_history, fam_history_small, None), (C_REFRESH, rt_history, fam_history_small, None),
+        (C_ENTER, rt_with, fam_with, None)):
+    _c.rt, _c.rt_family, _c.concretize = _rt, _fam, _conc
+
+BOUNDED = [
+    Bounded.from_rt("history replay against a normalised-key dictionary reference", rt_history, fam_history,
+                    "all histories of depth <=3 (quick) / <=4 (thorough) over 17 operations (set mapping / keyword form, dotted keys, both spellings, mapping values, update_defaults, refresh), 10 probe keys after every step",
+                    klass=klass_history),
+    Bounded.from_rt("update/merge on small nested dicts against the reference merge", rt_update, fam_update, "6 old x 7 new x (2 priorities + 5 defaults) dicts, depth <=3", klass=klass_update),
+    Bounded.from_rt("canonical_name on small key sets", rt_canon, fam_canon, "keys a, a-b, a_b, a-b-c, a-b_c, a_b-c, a_b_c against 0..2 stored keys",
+                    klass=lambda inp, res: klass_spelling([inp["k"]] + inp["stored"])),
+    Bounded.from_rt("device requests in simulated hardware environments", rt_device, fam_device,
+                    "41 requests (28 strings, ints, None, float, lists, torch.device) x 4 environments (no accelerator, 2 cuda devices, mps, both) x set / check_key_val / update_defaults",
+                    klass=klass_device),
+    Bounded.from_rt("set as a context manager restores previous values", rt_with, fam_with, "3 stores x 5 argument mappings", klass=lambda inp, res: "with-statement"),
+    Bounded.from_rt("trusted string facts (replace / split) against CPython", rt_string_facts, lambda: [dict(max_len=5, alphabet="a-_.")], "all strings of length <=5 over {a,-,_,.}"),
+    Bounded.from_rt("trusted torch.device / lower facts against torch", rt_torch_device_facts, fam_torch_device_facts, "42 device strings"),
+]
